@@ -3,7 +3,6 @@ package chainsim
 import (
 	"testing"
 
-	"github.com/dominant-strategies/go-quai/core/rawdb"
 	"verif/sim/simkit"
 )
 
@@ -12,17 +11,22 @@ func TestExplore(t *testing.T) {
 	defer restore()
 	inBubble(t, func() {
 		w := NewWorld(nil, simkit.NewTrace())
-		n, err := w.AddNode(DefaultNodeConfig("n0"))
+		cfg := DefaultNodeConfig("n0")
+		cfg.MinerPreference = 0.5
+		n, err := w.AddNode(cfg)
 		if err != nil {
 			t.Fatal(err)
 		}
-		for ctx := 0; ctx < 3; ctx++ {
-			t.Logf("ctx %d bestPh in db: %v", ctx, rawdb.ReadBestPendingHeader(n.DBs[ctx]) != nil)
-		}
 		r := &Runner{W: w, N: n, Head: w.Gen, Stats: map[string]int{}}
-		r.Step(Op{OpMine, 2, 0, 1, 0})
-		for ctx := 0; ctx < 3; ctx++ {
-			t.Logf("after mine: ctx %d bestPh in db: %v", ctx, rawdb.ReadBestPendingHeader(n.DBs[ctx]) != nil)
+		for _, op := range Prologue(1) {
+			r.Step(op)
+		}
+		for _, op := range []Op{{OpTransfer, 0, 1, 2, 0}, {OpTransfer, 1, 1, 1, 0}, {OpQiSpend, 0, 0, 0, 1}, {OpConvert, 2, 1, 1, 0}, {OpMine, 2, 0, 0, 0}, {OpTransfer, 0, 1, 2, 0}, {OpTransfer, 1, 1, 1, 0}, {OpQiSpend, 3, 1, 0, 2}, {OpMine, 2, 0, 1, 0},{OpTransfer, 0, 1, 2, 0}, {OpTransfer, 1, 1, 1, 0}, {OpQiSpend, 5, 1, 0, 2}} {
+			r.Step(op)
+		}
+		for i, m := range Mutations {
+			out, err := w.Byzantine(n, r.Head, m, i, uint64(i)*1000)
+			t.Logf("%-32s %s applied=%v appended=%v ACCEPTED=%v err=%q trace=%q harnessErr=%v", m.Name, m.Prop, out.Applied, out.Appended, out.Accepted, out.Err, out.TraceNote, err)
 		}
 		n.Stop()
 	})
